@@ -24,6 +24,7 @@ type Config struct {
 	Replay         string  `json:"replay"`
 	Verbose        bool    `json:"verbose"`
 	MinimizeBudget int     `json:"minimize_budget"`
+	Race           bool    `json:"race"`
 }
 
 type record struct {
@@ -109,7 +110,10 @@ func Main(t *testing.T) {
 		out.Write(append(b, '\n'))
 	}
 	var progress atomic.Int64
-	startWatchdog(&progress, emit)
+	RaceMode = cfg.Race
+	if !cfg.Race {
+		startWatchdog(&progress, emit)
+	}
 
 	switch cfg.Mode {
 	case "replay":
